@@ -4,7 +4,7 @@ use bva_harness::*;
 const MAXD: usize = 330;
 
 fn scale(tier: &str, quick: usize) -> usize {
-    if tier == "thorough" { quick * 20 } else if tier == "amp" { quick * 6 } else { quick }
+    if tier == "thorough" { quick * 20 } else if tier == "amp" { quick * 10 } else { quick }
 }
 fn line(op: &str, args: &[&str]) -> String {
     let mut s = format!("{} {}", op, DBG);
@@ -261,8 +261,35 @@ fn gen_c01(rng: &mut Rng, tier: &str, emit: Emit) {
     }
 }
 
+
+/// dividend / divisor words drawn independently from a boundary set (the classic add-back and qhat-overflow cases of
+/// multi-word long division are of this shape), as whole 64-bit words
+fn div_word_lattice(rng: &mut Rng, tier: &str, emit: Emit) {
+    let ws: [u64; 10] = [0, 1, 2, 3, 1 << 63, (1 << 63) - 1, u64::MAX, u64::MAX - 1, 1 << 61, 0x8000_0000_0000_0001];
+    let reps = if tier == "quick" { 1500 } else { 40000 };
+    let tys = [ty_of("D"), ty_of("A"), ty_of("F64x3"), ty_of("F128x2"), ty_of("F32x3")];
+    for _ in 0..reps {
+        let lt = *rng.pick(&tys);
+        let rt = *rng.pick(&tys);
+        let ln = match lt.cap() { Some(c) => c / 64, None => 2 + rng.below(4) }.max(1);
+        let rn = match rt.cap() { Some(c) => c / 64, None => 1 + rng.below(4) }.max(1);
+        let mk = |rng: &mut Rng, n: usize| -> Vec<bool> {
+            let mut v = Vec::with_capacity(n * 64);
+            for _ in 0..n { let x = if rng.chance(1, 6) { rng.next() } else { *rng.pick(&ws) }; for i in 0..64 { v.push((x >> i) & 1 == 1); } }
+            v
+        };
+        let a = mk(rng, ln);
+        let mut b = mk(rng, rn.min(ln + 1));
+        if b.iter().all(|x| !x) { b[0] = true; }
+        let l = vec_token(&lt, &a[..a.len().min(lt.cap().unwrap_or(usize::MAX))], rng.below(2), false);
+        let r = vec_token(&rt, &b[..b.len().min(rt.cap().unwrap_or(usize::MAX))], rng.below(2), false);
+        emit(line(if rng.chance(1, 2) { "div" } else { "rem" }, &[&l, &r, "rr"]));
+    }
+}
+
 fn gen_c02(rng: &mut Rng, tier: &str, emit: Emit) {
     div_lattice(rng, tier, emit);
+    div_word_lattice(rng, tier, emit);
     gen_binary(rng, tier, emit, &["div", "rem"], 200, 8);
     // special divisors: 1, 2^k, the dividend itself ± 1, all ones, zero, empty; divisor longer than the
     // dividend's length and capacity
